@@ -6,7 +6,7 @@ the supplied values through the projection of drivers/walk.py.
 import math
 
 from ..common import frame
-from . import walk
+from . import history, walk
 from .frames import BAD, classify_exc, parse_call
 
 
@@ -74,6 +74,7 @@ def obs_c03(case):
     ev["kw"] = abstract_kw(lay, kwargs, P0)
     if not kwargs:
         return ev
+    history.run(case.get("hist"))
     msg, out = construct(m, cls, mid, pbf, kwargs)
     ev["out"] = out
     if msg is None:
@@ -153,6 +154,7 @@ def obs_c15(case):
     ev["kw"] = abstract_kw(lay, good, P0)
     value = eval(case["value"], {"nan": float("nan"), "inf": float("inf"), "set": set, "__builtins__": {}})  # noqa: S307 - literals written by the harness
     kwargs[case["tgt"]] = value
+    history.run(case.get("hist"))
     msg, out = construct(m, cls, mid, pbf, kwargs)
     ev["out"] = out
     if msg is not None:
